@@ -3,6 +3,7 @@ package engine
 import (
 	"fmt"
 	"go/types"
+	"math/big"
 	"runtime/debug"
 	"sort"
 	"strings"
@@ -18,6 +19,8 @@ func (p *Program) verifyTheorem(c *Contract) (res *FuncResult) {
 		siteCnt: map[string]int{}, Inlined: map[string]bool{}, UsedContracts: map[string]bool{}, UsedAssumed: map[string]bool{}}
 	res.Exec = ex
 	CurDefs = map[string]*Term{}
+	SymRanges = map[string][2]*big.Int{}
+	ex.SymRangesMap = SymRanges
 	defer func() {
 		if r := recover(); r != nil {
 			if re, ok := r.(rejectErr); ok {
